@@ -126,6 +126,14 @@ def eff_params(spec):
     k = spec["kind"]
     p = dict(DEFAULTS[k])
     p.update(spec["p"])
+    if k == "LinReg" and "iq" in p:
+        # deprecated spelling of ig: a non-zero iq is the ground current
+        iq = p.pop("iq")
+        if is_table(iq) or iq != 0.0:
+            if is_table(iq) and "iq" in iq:
+                iq = dict(iq)
+                iq["ig"] = iq.pop("iq")
+            p["ig"] = iq
     out = {}
     for key, val in p.items():
         if key in ("vo",):
